@@ -427,6 +427,39 @@ _ADDENDA4 = {
     'C20': "Feedback.__init__ per attribute with falsy explicit values (R8), add_feedback/add_ignored_feedback "
            "agreement over parent kinds (R9), log()/debug() forwarding their message (R10).",
 }
+# Rules added after the eighth round (DESIGN.md 10.11).
+_ADDENDA8 = {
+    'C02': "The correctness table includes visible positive-valence feedback that declares nothing and visible negative "
+           "feedback marked unscored; resolve() is re-run in the plain call form scripts use (result caches keyed on "
+           "list lengths are stale after un-muting).",
+    'C03': "Untriggered feedback carrying an else-message scores like any other.",
+    'C04': "The import replacement is executed (refusal of pedal.*, eleven import forms, a submission file that fails "
+           "at import on every execution); SystemExit is modelled with exit status None / 0 / a message.",
+    'C07': "equality_test is run with pedal's own strip_punctuation (module-level definition interpreted) and with one "
+           "or both operands proxied (isinstance sees the wrapped value, type() does not).",
+    'C08': "The program-identity histories include source.verify() on the submission or on explicit code (the real "
+           "verify is executed) and the submission's text being replaced under the same file name.",
+    'C09': "While loops whose test reads the variable the body assigns are in the flow table.",
+    'C12': "syntax_error.__init__ is executed with CPython lines past the end of the split text; the frame-line bounds "
+           "rule is shared with C17; Submission.__init__/replace_main keep the submitted text character for character.",
+    'C13': "The reset-twice rule sees recycled objects (constructed objects keep their keyword arguments and accept "
+           "method calls).",
+    'C14': "With a stale buffer of an abandoned execution on the stack, the next execution records its own output (R6).",
+    'C15': "append_output with trailing blank-only lines; clear_output leaves the executions' own records alone; "
+           "set_input given the queue itself, or after a function was set.",
+    'C16': "Comparisons of a proxy with itself go through the value's own operator; membership is executed (True, "
+           "False, and the TypeError the value raises).",
+    'C17': "stop_any_sections with the prologue (section 0) active; a comprehension clause borrowing a position is "
+           "located with the offset applied once.",
+    'C18': "Result functions of the operator table are executed on model container operands: a container result keeps "
+           "an element type (R4c).",
+    'C19': "The operator table's result functions are executed instead of abstracted by their return expressions; "
+           "pedal's own type classes are executed for value typing, is_subtype and string membership (R6).",
+    'C20': "Templates reaching fields by index, key, attribute or inside a format specification are rendered through "
+           "the real wrap_fields; two classes sharing a __name__ are both restored after overrides.",
+}
+for _k, _v in _ADDENDA8.items():
+    CLAIMS[_k]['text'] = CLAIMS[_k]['text'].rstrip() + ' ' + _v
 for _k, _v in _ADDENDA4.items():
     CLAIMS[_k]['text'] = CLAIMS[_k]['text'].rstrip() + ' ' + _v
 for _k, _v in _ADDENDA.items():
